@@ -431,6 +431,27 @@ def _eq_observes(ctx, comp):
                   f"looks at it: trees that differ only in {fld} compare equal",
                   eq.loc(), witness="Event() == Todo() -> True" if fld == "name" else None,
                   detail="compared")
+    # order-insensitivity: subcomponents are matched by membership, not by position
+    positional = []
+    for n in ast.walk(eq.node):
+        if isinstance(n, ast.Call) and isinstance(n.func, ast.Name) and n.func.id in ("zip", "enumerate"):
+            if "subcomponents" in dump(n) or True:
+                positional.append(n)
+        if isinstance(n, ast.Compare) and isinstance(n.ops[0], (ast.Eq, ast.NotEq)) \
+                and "subcomponents" in dump(n.left) and "subcomponents" in dump(n.comparators[0]) \
+                and "len(" not in dump(n.left):
+            positional.append(n)
+    member = [n for n in ast.walk(eq.node) if isinstance(n, ast.Compare)
+              and isinstance(n.ops[0], (ast.In, ast.NotIn))
+              and "subcomponents" in dump(n.comparators[0])]
+    ctx.check(not positional and bool(member), "C20/EQ-ORDER",
+              "subcomponents matched by membership",
+              f"Component.__eq__ compares subcomponents by position "
+              f"(`{dump(positional[0])[:60] if positional else 'no membership test found'}`): "
+              f"the result then depends on the order in which equal-keyed siblings "
+              f"were added", eq.loc(positional[0]) if positional else eq.loc(),
+              witness="two VALARMs of one event listed in swapped order",
+              detail="`sub in other.subcomponents` for every sub")
     # value classes: __eq__ of TimeBase compares params and dt
     tb = ctx.model.cls("prop.TimeBase").methods.get("__eq__")
     if tb is not None:
